@@ -59,6 +59,12 @@ type pipeCase struct {
 	SilenceMs int   `json:"silence_ms,omitempty"`
 	// every other transient interruption is an i/o timeout error instead of end-of-file
 	Timeouts bool `json:"interruptions_include_io_timeouts,omitempty"`
+	// at offset EmptyRunAt of the first source the reader returns (0, nil) EmptyRun
+	// times in a row (a serial library that reports "nothing yet" that way)
+	EmptyRun   int `json:"empty_reads_in_a_row,omitempty"`
+	EmptyRunAt int `json:"empty_run_at_offset,omitempty"`
+	// the last source ends with a hard read error instead of end-of-file
+	EndsWithError bool `json:"ends_with_a_read_error,omitempty"`
 }
 
 // chunkReader hands out the input in chunks with pauses, then reports io.EOF.
@@ -82,6 +88,9 @@ type chunkReader struct {
 	// every other transient interruption is reported as an i/o timeout instead of EOF
 	timeouts       bool
 	nInterruptions int
+	emptyRun       int
+	emptyRunAt     int
+	endErr         error
 }
 
 func (cr *chunkReader) noteEOF() {
@@ -98,7 +107,14 @@ func (cr *chunkReader) Read(p []byte) (int, error) {
 	tick()
 	perturb(cr.r, cr.profile)
 	if len(cr.data) == 0 {
+		if cr.endErr != nil {
+			return 0, cr.endErr
+		}
 		return 0, io.EOF
+	}
+	if cr.emptyRun > 0 && cr.off >= cr.emptyRunAt {
+		cr.emptyRun--
+		return 0, nil
 	}
 	if cr.emptyPermille > 0 && !cr.lastEmpty && cr.r.Intn(1000) < cr.emptyPermille {
 		cr.lastEmpty = true
@@ -252,6 +268,12 @@ func execC09(c *child.Ctx, k pipeCase, cj []byte, traces, pairs map[uint64]struc
 	var firstReader *chunkReader
 	for si, input := range inputs {
 		cr := &chunkReader{data: input, max: k.Chunk, profile: k.ReaderPro, r: ref.NewRand(k.Seed*17 + 5 + uint64(si)), eofWithData: k.EOFWithData, emptyPermille: k.EmptyPermille}
+		if si == 0 {
+			cr.emptyRun, cr.emptyRunAt = k.EmptyRun, k.EmptyRunAt
+		}
+		if si == len(inputs)-1 && k.EndsWithError {
+			cr.endErr = errors.New("read /dev/ttyUSB0: input/output error")
+		}
 		if si == 0 && k.SilenceMs > 0 {
 			cr.silenceAt = append([]int(nil), k.SilenceAt...)
 			cr.silence = time.Duration(k.SilenceMs) * time.Millisecond
@@ -527,6 +549,16 @@ func monC09(c *child.Ctx, replay json.RawMessage) {
 			}
 			k.Chunk = 5000
 			c.Count("runs_with_interruption_after_a_held_up_consumer", 1)
+		}
+		if i%12 == 7 && len(input) > 2 {
+			k.EmptyRun, k.EmptyRunAt = []int{99, 100, 101, 250, 1000}[r.Intn(5)], r.Range(0, len(input)-1)
+			c.Count("runs_with_many_empty_reads_in_a_row", 1)
+		}
+		if i%10 == 4 {
+			// the device is unplugged: a hard read error ends the last source; what was
+			// received is delivered and the call returns
+			k.EndsWithError = true
+			c.Count("runs_ending_with_a_read_error", 1)
 		}
 		if k.TolMs > 0 && i%16 >= 8 {
 			k.Timeouts = true
